@@ -302,3 +302,63 @@ def run(chk, repo, tier):
     if not blank_only or len(alts) < 3:
         chk.violation(R4, rel, rd.qualname, f'sep={sep!r}', 'comma, TAB and blanks must all separate items', line=seps[0].lineno,
                       witness='a space separated file is read as one column')
+    run_more(chk, repo)
+
+
+def run_more(chk, repo):
+    R5 = chk.rule('R5', 'the missing-data token used when a dataset is written is the model\'s own token, the one the reader '
+                        'is given', floor=2)
+    R6 = chk.rule('R6', 'observation records are identified by MDV, then EVID, then AMT (NM-TRAN precedence)', floor=1)
+    wm = repo.module('pharmpy.modeling.write_csv')
+    wf = wm.functions.get('write_csv')
+    pm = repo.module('pharmpy.model.external.nonmem.parsing')
+    if wf is None:
+        raise AnalysisError('write_csv not found')
+
+    def token_source(expr):
+        txt = unparse(expr)
+        if txt.endswith('.missing_data_token'):
+            base = txt[:-len('.missing_data_token')]
+            return 'datainfo' if base.endswith('datainfo') or base in ('di', 'datainfo') else base
+        return txt
+    wsites = [k.value for c in calls_in(wf.node) if isinstance(c.func, ast.Attribute) and c.func.attr == 'to_csv'
+              for k in c.keywords if k.arg == 'na_rep']
+    rsites = [k.value for f in pm.functions.values() for c in calls_in(f.node) for k in c.keywords
+              if k.arg == 'missing_data_token' and (dotted(c.func) or '').endswith('read_nonmem_dataset')]
+    if not wsites or not rsites:
+        raise AnalysisError(f'R5: na_rep of write_csv ({len(wsites)}) or reader token site ({len(rsites)}) not found')
+    for what, mod, fn, sites in (('writer', wm, wf.qualname, wsites), ('reader', pm, 'parse_dataset', rsites)):
+        for e in sites:
+            src = token_source(e)
+            chk.instance(R5, f'{what}: missing data token from {unparse(e)} ({src})')
+            if src != 'datainfo':
+                chk.violation(R5, mod.rel, fn, unparse(e),
+                              f'the {what} takes the missing-data token from `{src}`, not from the model\'s datainfo; writer and '
+                              f'reader disagree for a model with a non-default token', line=e.lineno,
+                              witness="read_model(path, missing_data_token='-999'), write_csv + write_model, read again: NaN "
+                                      "comes back as the number -99")
+    fo = pm.functions.get('filter_observations')
+    if fo is None:
+        raise AnalysisError('filter_observations not found')
+    order = []
+    # idiom 1: nested try/except IndexError; idiom 2: loop over a constant tuple of type names
+    for n in ast.walk(fo.node):
+        if isinstance(n, ast.Subscript) and isinstance(n.value, ast.Attribute) and n.value.attr == 'typeix' \
+                and isinstance(n.slice, ast.Constant):
+            order.append((n.lineno, n.col_offset, n.slice.value))
+    order = [t for _, _, t in sorted(order)]
+    if not order:
+        for n in ast.walk(fo.node):
+            if isinstance(n, ast.For) and isinstance(n.iter, (ast.Tuple, ast.List)) \
+                    and all(isinstance(e, ast.Constant) for e in n.iter.elts) \
+                    and any(isinstance(x, ast.Attribute) and x.attr == 'typeix' for x in ast.walk(n)):
+                order = [e.value for e in n.iter.elts]
+    if not order:
+        raise AnalysisError('R6: column type lookups of filter_observations not recognised')
+    chk.instance(R6, f'filter_observations looks the record kind up in the order {order}')
+    if order != ['mdv', 'event', 'dose']:
+        chk.violation(R6, pm.rel, 'filter_observations', f'lookup order {order}',
+                      'NM-TRAN: a record is an observation iff MDV = 0; EVID and AMT are only consulted when MDV is absent',
+                      line=fo.node.lineno,
+                      witness='$INPUT with EVID and MDV; an individual whose only EVID=0 records have MDV=1 is kept although it '
+                              'has no observation')
